@@ -42,7 +42,7 @@ func MarshalJSON[T any](t TestingT, cases []CaseJSON[T]) {
 		if !assert.NoError(t, callForCase(i, &c, c.Before), failInfo) {
 			continue
 		}
-		b, err := safeMarshalJSON(any(c.Value).(json.Marshaler))
+		b, err := safeMarshalJSON(c.Value)
 		if !assert.NoError(t, callForCase(i, &c, c.After), failInfo) {
 			continue
 		}
@@ -80,7 +80,7 @@ func UnmarshalJSON[T any](t TestingT, cases []CaseJSON[T], helper TypeHelper[T])
 			continue
 		}
 		v := helperNew[T](helper, c.Value)
-		err := safeUnmarshalJSON(f(&v).(json.Unmarshaler), []byte(c.Data))
+		err := safeUnmarshalJSON(f, &v, []byte(c.Data))
 		if !assert.NoError(t, callForCase(i, &c, c.After), failInfo) {
 			continue
 		}
@@ -96,16 +96,18 @@ func UnmarshalJSON[T any](t TestingT, cases []CaseJSON[T], helper TypeHelper[T])
 	}
 }
 
-func safeMarshalJSON(m json.Marshaler) (data []byte, err error) {
+func safeMarshalJSON(value any) (data []byte, err error) {
 	defer func() {
 		err = panicError(err, recover())
 	}()
-	return m.MarshalJSON()
+	// type assertion is part of protected call, value can be nil interface
+	return value.(json.Marshaler).MarshalJSON()
 }
 
-func safeUnmarshalJSON(u json.Unmarshaler, data []byte) (err error) {
+func safeUnmarshalJSON[T any](f func(*T) json.Unmarshaler, v *T, data []byte) (err error) {
 	defer func() {
 		err = panicError(err, recover())
 	}()
-	return u.UnmarshalJSON(data)
+	// call of f is part of protected call, *v can be nil interface
+	return f(v).UnmarshalJSON(data)
 }
